@@ -131,7 +131,9 @@ func (d *Decoder) decodeSlice(pkt *rtp.Packet) ([]byte, error) {
 				errSize, maxFrameSize)
 		}
 
-		d.fragments = append(d.fragments, pkt.Payload[4:])
+		if len(pkt.Payload[4:]) != 0 { // a fragment without data is not retained
+			d.fragments = append(d.fragments, pkt.Payload[4:])
+		}
 
 		slice := joinFragments(d.fragments, d.fragmentsSize)
 		d.resetFragments()
@@ -157,7 +159,9 @@ func (d *Decoder) decodeSlice(pkt *rtp.Packet) ([]byte, error) {
 				errSize, maxFrameSize)
 		}
 
-		d.fragments = append(d.fragments, pkt.Payload[4:])
+		if len(pkt.Payload[4:]) != 0 { // a fragment without data is not retained
+			d.fragments = append(d.fragments, pkt.Payload[4:])
+		}
 		d.fragmentNextSeqNum++
 		return nil, ErrMorePacketsNeeded
 	}
